@@ -46,7 +46,7 @@ import (
 	"verif/harness/hx"
 )
 
-// ---------------------------------------------------------------- the assembly (coq/gen/GenRoutes.json)
+// ---------------------------------------------------------------- the assembly (.build/gen/GenRoutes.json)
 type Cond struct {
 	K string `json:"k"`
 	A int    `json:"a"`
@@ -143,6 +143,9 @@ type Config struct {
 	Cors   bool   `json:"cors"`
 	Origin string `json:"origin"`
 	Mode   string `json:"mode"`
+	// value given to condition atoms the harness cannot relate to the configuration (they are not under its
+	// control in the real main() either); one extra configuration sets them all to true
+	Unknown bool `json:"unknown"`
 }
 
 func envOf(a *Assembly, c Config) ([]bool, []string) {
@@ -163,7 +166,7 @@ func envOf(a *Assembly, c Config) ([]bool, []string) {
 		case at.Kind == "var:view.HaveStatic":
 			env[at.ID] = view.HaveStatic
 		default:
-			env[at.ID] = false
+			env[at.ID] = c.Unknown
 			unknown = append(unknown, at.Kind+" "+at.Src)
 		}
 	}
@@ -604,7 +607,7 @@ func muxProbe() map[string]interface{} {
 
 // ---------------------------------------------------------------- main
 func main() {
-	asmPath := flag.String("assembly", "", "coq/gen/GenRoutes.json")
+	asmPath := flag.String("assembly", "", ".build/gen/GenRoutes.json")
 	replay := flag.String("replay", "", "re-run the case lines of this file (kind case / auth) against the real code")
 	fullProduct := flag.Bool("full", false, "every Authorization class x all four Accept-Encoding/Origin combinations on every route (default: all four for the key classes, one rotating combination for the others)")
 	f := hx.ParseFlags()
@@ -633,6 +636,9 @@ func main() {
 		{Name: "all/B", Login: "user", Pass: "pass", Cors: false, Mode: "all"},
 		{Name: "writer/B", Login: "user", Pass: "pass", Cors: false, Mode: "writer"},
 		{Name: "reader+cors/A", Login: "admin", Pass: "s3cr:et", Cors: true, Origin: "", Mode: "reader"},
+	}
+	if _, unknown := envOf(&asm, configs[0]); len(unknown) > 0 {
+		configs = append(configs, Config{Name: "all/B+unknown-atoms-true", Login: "user", Pass: "pass", Mode: "all", Unknown: true})
 	}
 	rnd := hx.Rand(f.Seed)
 	id := 0
